@@ -657,11 +657,11 @@ def long_tokens(ctx, res, binary=None, env=None, sanitizer=False):
         cases.append(Case('commodity-conversion-annotated-self', t + '2020/01/01 p\n  A  2 a\n  B\n', ['bal'],
                           info=E('error') if GUARDS.get('conversion_cycle_by_referent') else {}))
     cases.append(Case('commodity-conversion', 'C 1 a {$1} = 2 b\n2020/01/01 p\n  A  2 a\n  B\n', ['bal'], info=E('ok')))
-    # a conversion cycle through the `larger` links only (F56 until repaired)
+    # a conversion cycle through the `larger` links only (F59 until repaired)
     cases.append(Case('commodity-conversion-larger-cycle', 'C 1 a = 1 b\nC 1 a = 1 z\nC 1 b = 1 a\n2020/01/01 p\n  A  2 b\n  B\n', ['bal'],
                       info=E('error') if GUARDS.get('conversion_larger_chain_guard') else {}))
     cases.append(Case('commodity-conversion', 'C 1 a = 1 b\nC 1 a = 1 z\n2020/01/01 p\n  A  2 b\n  A  3 z\n  B\n', ['bal'], info=E('ok')))
-    # a journal that includes itself, directly or through another file (F55 until repaired)
+    # a journal that includes itself, directly or through another file (F58 until repaired)
     inc = E('error') if GUARDS.get('include_self_guard') else {}
     cases.append(Case('include-self', 'include j.dat\n' + j, ['bal'], info=inc))
     cases.append(Case('include-self', j + 'include s2.dat\n', ['bal'], files={'s2.dat': 'include j.dat\n'}, info=inc))
@@ -669,7 +669,7 @@ def long_tokens(ctx, res, binary=None, env=None, sanitizer=False):
     cases.append(Case('include-self', 'include *.dat\n' + j, ['bal'], info=inc))
     cases.append(Case('include', 'include s2.dat\ninclude s2.dat\n' + j, ['bal'], files={'s2.dat': '2020/01/02 q\n  C  $2\n  D\n'}, info=E('ok')))
     cases.append(Case('include', 'include nonexistent.dat\n' + j, ['bal'], info=E('error')))
-    # the xact command: a cost with no posting to attach it to (F54 until repaired)
+    # the xact command: a cost with no posting to attach it to (F57 until repaired)
     dg = GUARDS.get('draft_cost_post_guard')
     for a, cls in ((['foo', '@', '5'], 'error'), (['@', '5'], 'error'), (['foo', '@'], 'error'), (['foo', '@@', '5'], 'error'),
                    (['foo', 'A', '5', '@', '3'], 'ok'), (['foo', 'A', '5 AAA', '@@', '$3'], 'ok'), (['p', '5', '@'], 'error')):
